@@ -57,8 +57,17 @@ func (l *EventsLoader) LoadAndVerify(ctx context.Context, rawEvents []json.RawMe
 	// 3. Passes hash checks, otherwise it is redacted before being processed further.
 	events := make([]PDU, 0, len(rawEvents))
 	errs := make([]error, 0, len(rawEvents))
+	seen := make(map[string]struct{}, len(rawEvents))
 	for _, rawEv := range rawEvents {
 		event, err := verImpl.NewEventFromUntrustedJSON(rawEv)
+		if err == nil {
+			// The ordering below keeps one entry per event ID, so a repeated
+			// event gets its own (failed) result instead of an empty one.
+			if _, dup := seen[event.EventID()]; dup {
+				err = fmt.Errorf("gomatrixserverlib: event %s appears more than once", event.EventID())
+			}
+			seen[event.EventID()] = struct{}{}
+		}
 		if err != nil {
 			errs = append(errs, err)
 			continue
